@@ -48,6 +48,7 @@ static inline void fiber_signal_wait(fiber_signal_t* s) {
     // context switch
     manager->set_wait_location = (void**)&this_fiber->scratch;
     manager->set_wait_value = FIBER_SIGNAL_READY_TO_WAKE;
+    FIBER_VERIF_POINT(FV_SIGNAL_WAIT_REGISTERED, s, this_fiber);
     fiber_manager_yield(manager);
     this_fiber->scratch = NULL;
   }
@@ -144,6 +145,7 @@ static inline void fiber_multi_signal_wait(fiber_multi_signal_t* s) {
         // the context switch
         manager->set_wait_location = (void**)&this_fiber->scratch;
         manager->set_wait_value = FIBER_SIGNAL_READY_TO_WAKE;
+        FIBER_VERIF_POINT(FV_SIGNAL_WAIT_REGISTERED, s, this_fiber);
         fiber_manager_yield(manager);
         this_fiber->scratch = NULL;
         break;
